@@ -1,6 +1,7 @@
 // append-to: src/terminal.rs
 // harness: k_terminal_gc_primary props=C13,C14 kind=bounded tier=quick timeout=900 obligation=Terminal::gc(gc_rel on the primary screen: trims the buffer and hands the drained lines out in order) bound="1x1 terminal, limit 1, 3 scrollback lines"
-// harness: k_terminal_gc_alt props=C13,C14,C16 kind=bounded tier=quick timeout=900 obligation=Terminal::gc(gc_rel on the alternate screen: trims to the visible rows and hands nothing out) bound="1x1 terminal, 3 scrollback lines"
+// harness: k_terminal_gc_alt props=C13,C14,C16 kind=bounded tier=thorough timeout=1800 obligation=Terminal::gc(gc_rel on the alternate screen: trims to the visible rows and hands nothing out) bound="1x1 terminal, 3 scrollback lines"
+// harness: k_terminal_gc_other props=C13,C14,C16 kind=bounded tier=thorough timeout=1800 obligation=Terminal::gc(gc_rel: the inactive buffer, with a trim pending, is left alone) bound="1x1 terminal, limit 0, primary parked with one scrollback line and a pending trim, alternate screen active"
 #[cfg(kani)]
 mod verif_kani_terminal {
     use super::*;
@@ -60,4 +61,25 @@ mod verif_kani_terminal {
     #[kani::proof]
     #[kani::unwind(12)]
     fn k_terminal_gc_alt() { gc_case(1, true, 3); kani::cover!(true); }
+
+    /// [C14,C16] gc() on the alternate screen must not trim the parked primary buffer: its excess
+    /// lines are handed out (not dropped) by the first gc() after the switch back
+    #[kani::proof]
+    #[kani::unwind(8)]
+    fn k_terminal_gc_other() {
+        let mut t = Terminal::new((1, 1), Some(0));
+        let mut l = Line::blank(1, Pen::default());
+        l.print(0, Cell::new('x', Pen::default()));
+        t.buffer.lines.insert(0, l);
+        t.buffer.trim_needed = true;
+        t.switch_to_alternate_buffer();
+        let mut n = 0;
+        for _l in t.gc() {
+            n += 1;
+        }
+        assert!(n == 0);
+        assert!(t.other_buffer.lines.len() == 2 && t.other_buffer.trim_needed);
+        assert!(t.other_buffer.lines[0].cells[0].char() == 'x');
+        kani::cover!(true);
+    }
 }
